@@ -110,6 +110,20 @@ Section C01.
        verified (reg97 algs) src (co_protected o) (co_hseg o ++ 46 :: co_payload o) (co_sseg o)) ).
   Proof. exact (compact97_sound json_loads mac pk_verify ec_verify). Qed.
 
+  (* rfc7797 compact, for EVERY payload argument (absent, equal, different, empty, ...): the
+     payload returned is exactly the payload that was verified — the signing input handed to
+     the algorithm is co_hseg "." co_payload when b64 is false, and co_hseg "." co_pseg with
+     co_payload = b64d co_pseg otherwise *)
+  Theorem c01_7797_payload_is_verified : forall tok src payload algs o,
+    deserialize_compact97 json_loads mac pk_verify ec_verify tok src payload algs = Ok o ->
+    exists rg enc,
+      verified rg src (co_protected o) (co_hseg o ++ 46 :: enc) (co_sseg o) /\
+      ( (enc = co_payload o /\ py_getitem_str (co_protected o) s_b64 <> Ok (PBool true) /\
+         py_in (PStr s_b64) (co_protected o) = Ok true)
+        \/
+        (enc = co_pseg o /\ b64d enc = Ok (co_payload o)) ).
+  Proof. exact (compact97_payload_is_verified json_loads mac pk_verify ec_verify). Qed.
+
   (* rfc7797 JSON, model of the code WITH fix01: the unencoded formula is used
      only when "b64" (not true) is a member of the PROTECTED header, whenever
      the JWS has a protected header.
@@ -259,6 +273,7 @@ Print Assumptions c01_ec_length.
 Print Assumptions c01_ec_accept.
 Print Assumptions c01_hmac_accept.
 Print Assumptions c01_7797_sound.
+Print Assumptions c01_7797_payload_is_verified.
 Print Assumptions c01_b64_only_if_protected_partial.
 Print Assumptions c01_b64_only_if_protected_refuted.
 Print Assumptions c01_b64_residual_refuted.
